@@ -437,8 +437,27 @@ impl MqttState {
     }
 
     fn handle_incoming_pubcomp(&mut self, pubcomp: &PubComp) -> Result<Option<Packet>, StateError> {
+        if !self.outgoing_rel.contains(pubcomp.pkid as usize) {
+            error!("Unsolicited pubcomp packet: {:?}", pubcomp.pkid);
+            return Err(StateError::Unsolicited(pubcomp.pkid));
+        }
+        self.outgoing_rel.set(pubcomp.pkid as usize, false);
+        self.inflight -= 1;
+
+        if pubcomp.reason != PubCompReason::Success {
+            warn!(
+                "PubComp Pkid = {:?}, reason: {:?}",
+                pubcomp.pkid, pubcomp.reason
+            );
+        }
+
+        // the packet id is free again, whatever the reason code: a publish parked on it
+        // goes on the wire now and is tracked like any other
         let outgoing = self.check_collision(pubcomp.pkid).map(|publish| {
             let pkid = publish.pkid;
+            self.outgoing_pub[pkid as usize] = Some(publish.clone());
+            self.inflight += 1;
+
             let event = Event::Outgoing(Outgoing::Publish(pkid));
             self.events.push_back(event);
             self.collision_ping_count = 0;
@@ -446,21 +465,6 @@ impl MqttState {
             Packet::Publish(publish)
         });
 
-        if !self.outgoing_rel.contains(pubcomp.pkid as usize) {
-            error!("Unsolicited pubcomp packet: {:?}", pubcomp.pkid);
-            return Err(StateError::Unsolicited(pubcomp.pkid));
-        }
-        self.outgoing_rel.set(pubcomp.pkid as usize, false);
-
-        if pubcomp.reason != PubCompReason::Success {
-            warn!(
-                "PubComp Pkid = {:?}, reason: {:?}",
-                pubcomp.pkid, pubcomp.reason
-            );
-            return Ok(None);
-        }
-
-        self.inflight -= 1;
         Ok(outgoing)
     }
 
